@@ -64,6 +64,10 @@ enum SackKind {
     Stale(u32),
     /// explicit (relative cumulative TSN, gap blocks)
     Explicit(i64, Vec<(u16, u16)>),
+    /// many gap blocks over scattered holes: advance the cumulative point by `adv`, leave the next
+    /// chunk a hole, then report up to `n` blocks of `width` chunks each, separated by one-chunk holes
+    /// (a SACK chunk holds (1188 - 16) / 4 = 293 blocks; no limit of 8 as with the masks)
+    Scatter(usize, usize, usize),
 }
 
 #[derive(Clone, Debug)]
@@ -433,6 +437,20 @@ async fn run_scn(s: &Scn, seed: u64) -> Outcome {
                                         (c, g, a)
                                     }
                                     SackKind::Stale(k) => (v.cum_rel - k as i64, vec![], vec![]),
+                                    SackKind::Scatter(adv, n, width) => {
+                                        let c = v.cum_rel + (adv.min(all_after_cum.len())) as i64;
+                                        let rest: Vec<u32> = all_after_cum.iter().cloned().filter(|t| (*t as i64) > c).collect();
+                                        let (mut g, mut a) = (vec![], vec![]);
+                                        let mut i = 1usize; // rest[0] stays a hole
+                                        while g.len() < n && i + width <= rest.len() {
+                                            let (s0, e0) = (rest[i] as i64 - c, rest[i + width - 1] as i64 - c);
+                                            if e0 > 65535 { break; }
+                                            g.push((s0 as u16, e0 as u16));
+                                            a.extend_from_slice(&rest[i..i + width]);
+                                            i += width + 1;
+                                        }
+                                        (c, g, a)
+                                    }
                                     SackKind::Explicit(c, g) => {
                                         let mut a = vec![];
                                         for (s0, e0) in &g { for o in *s0..=*e0 { let t = c + o as i64; if t >= 0 && v.seen.contains_key(&(t as u32)) { a.push(t as u32); } } }
@@ -706,6 +724,52 @@ fn corpus() -> Vec<Scn> {
     out
 }
 
+/// SACKs with many Gap Ack Blocks (a foreign peer may send as many as fit a packet): around 16, and up
+/// to 280, over scattered holes with 40..600 small chunks in flight; untimed (fast retransmit of the
+/// holes, further SACKs) and timed (T3 / probe after the SACK): nothing a block covered may come back
+fn many_gaps_corpus(thorough: bool) -> Vec<Scn> {
+    let mut out = vec![];
+    let big = 1u32 << 20;
+    let ns: &[usize] = if thorough { &[15, 16, 17, 18, 31, 32, 33, 64, 128, 280] } else { &[15, 16, 17, 18, 32, 64, 280] };
+    for (k, &n) in ns.iter().enumerate() {
+        // chunks of 20 bytes (configured max_payload_size), enough of them for n one-chunk blocks
+        let chunks = 2 * n + 6;
+        let mut s = Scn::new("corpus-many-gaps");
+        s.client = k % 2 == 0;
+        s.chans = vec![(0, true, Some(20))];
+        s.max_cwnd = 1 << 20;
+        s.steps = vec![Step::Send(0, false, Pay::Pat(20 * chunks, 3, k as u8)), Step::Pkt(vec![]), Step::Pkt(vec![]), Step::Pkt(vec![]), Step::Pkt(vec![]),
+                       Step::Pkt(vec![InChunk::Sack(SackKind::Scatter(1, n, 1), big)]),
+                       Step::Pkt(vec![InChunk::Sack(SackKind::Scatter(1, n, 1), big)]),
+                       Step::Pkt(vec![InChunk::Sack(SackKind::Scatter(2, n, 1), big)]),
+                       Step::Pkt(vec![InChunk::Sack(SackKind::Scatter(0, n, 2), big)]),
+                       Step::Pkt(vec![InChunk::Sack(SackKind::Scatter(1, n, 1), big)]),
+                       Step::Send(0, false, Pay::Pat(200, 5, k as u8)),
+                       Step::Pkt(vec![InChunk::Sack(SackKind::Advance(3), big)]), Step::Flush(30)];
+        out.push(s);
+        // 2n+1 chunks: the last block covers the tail chunk (what the probe would pick if it stayed unacked)
+        let chunks = 2 * n + 1;
+        let mut s = Scn::new("timed-many-gaps");
+        s.timed = true; s.rto_ms = 240;
+        s.chans = vec![(0, true, Some(20))];
+        s.max_cwnd = 1 << 20;
+        s.steps = vec![Step::Send(0, false, Pay::Fill(10, 0x70)), Step::Pkt(vec![InChunk::Sack(SackKind::All, big)]),
+                       Step::Send(0, false, Pay::Pat(20 * chunks, 7, k as u8)), Step::Pkt(vec![]), Step::Pkt(vec![]), Step::Pkt(vec![]),
+                       Step::Pkt(vec![InChunk::Sack(SackKind::Scatter(1, n, 1), big)]), Step::Silence(240 * 5 / 2),
+                       Step::Pkt(vec![InChunk::Sack(SackKind::Scatter(1, n, 2), big)]), Step::Silence(240 * 3 / 2),
+                       Step::Flush(30), Step::Silence(300)];
+        out.push(s);
+    }
+    // the seeded shape: 35 messages of 100 bytes, one SACK with cum = first TSN and 17 single-TSN blocks, then time
+    let mut s = Scn::new("timed-many-gaps");
+    s.timed = true; s.rto_ms = 240;
+    s.steps = vec![];
+    for i in 0..35u8 { s.steps.push(Step::Send(0, false, Pay::Fill(100, i))); }
+    s.steps.extend(vec![Step::Pkt(vec![InChunk::Sack(SackKind::Scatter(1, 17, 1), big)]), Step::Silence(240 * 5 / 2), Step::Flush(30), Step::Silence(300)]);
+    out.push(s);
+    out
+}
+
 fn timed_corpus(thorough: bool) -> Vec<Scn> {
     let mut out = vec![];
     let rtos: &[u64] = if thorough { &[200, 400] } else { &[240] };
@@ -825,14 +889,15 @@ fn gen_random(r: &mut Rng, stats: &mut BTreeMap<String, u64>) -> Scn {
             7 | 8 => Step::Pkt(vec![InChunk::Sack(SackKind::Advance(r.below(4) as usize), rw)]),
             9 | 10 => Step::Pkt(vec![InChunk::Sack(SackKind::Gaps(r.next() & 0xFFFF), rw)]),
             11 => Step::Pkt(vec![InChunk::Sack(SackKind::AdvanceGaps(r.below(3) as usize, r.next() & 0xFF), rw)]),
-            12 => Step::Pkt(vec![InChunk::Sack(SackKind::Stale(r.range(1, 5) as u32), rw)]),
+            12 => if r.chance(1, 2) { Step::Pkt(vec![InChunk::Sack(SackKind::Stale(r.range(1, 5) as u32), rw)]) }
+                  else { Step::Pkt(vec![InChunk::Sack(SackKind::Scatter(r.below(3) as usize, *r.pick(&[9usize, 16, 17, 24, 40, 100]), r.range(1, 2) as usize), rw)]) },
             13 => Step::Pkt(vec![InChunk::DataNext(s.chans[0].0, r.range(1, 100) as usize)]),
             14 => Step::Pkt(vec![]),
             _ => Step::Pkt(vec![InChunk::DataNext(s.chans[0].0, 4), InChunk::Sack(SackKind::All, rw)]),
         };
         *stats.entry(format!("step:{}", match &step { Step::Send(..) => "send", Step::Pkt(v) if v.is_empty() => "fence", Step::Pkt(v) => match &v[0] {
             InChunk::Sack(SackKind::All, _) => "sack-all", InChunk::Sack(SackKind::Advance(_), _) => "sack-advance", InChunk::Sack(SackKind::Gaps(_), _) => "sack-gaps",
-            InChunk::Sack(SackKind::AdvanceGaps(..), _) => "sack-advance-gaps", InChunk::Sack(SackKind::Stale(_), _) => "sack-stale", InChunk::Sack(..) => "sack", InChunk::DataNext(..) => "data" }, _ => "other" })).or_default() += 1;
+            InChunk::Sack(SackKind::AdvanceGaps(..), _) => "sack-advance-gaps", InChunk::Sack(SackKind::Stale(_), _) => "sack-stale", InChunk::Sack(SackKind::Scatter(..), _) => "sack-scatter", InChunk::Sack(..) => "sack", InChunk::DataNext(..) => "data" }, _ => "other" })).or_default() += 1;
         s.steps.push(step);
     }
     if r.chance(2, 3) { s.steps.push(Step::Flush(30)); }
@@ -869,6 +934,7 @@ async fn main() {
     let mut stats: BTreeMap<String, u64> = BTreeMap::new();
     let mut scns: Vec<Scn> = wrap_corpus();
     scns.extend(corpus());
+    scns.extend(many_gaps_corpus(thorough));
     scns.extend(timed_corpus(thorough));
     let nrand = if thorough { 6000 } else { 1100 };
     let nwin = if thorough { 2000 } else { 400 };
